@@ -354,3 +354,50 @@ func sortedKeys(m map[string]int64) []string {
 	sort.Strings(ks)
 	return ks
 }
+
+// APICalls returns, per thread, the exported library functions (API entry points) that
+// appear outermost on the stacks of a traced execution.
+func APICalls(r *vsched.Result) map[int32]map[string]bool {
+	out := map[int32]map[string]bool{}
+	for _, e := range r.Trace {
+		n := 0
+		for n < len(e.PC) && e.PC[n] != 0 {
+			n++
+		}
+		if n == 0 {
+			continue
+		}
+		fr := runtime.CallersFrames(e.PC[:n])
+		api := ""
+		for {
+			f, more := fr.Next()
+			fn := f.Function
+			if strings.HasPrefix(fn, "github.com/aperturerobotics/util/") && !strings.Contains(fn, "/zzverif/") {
+				short := strings.TrimPrefix(fn, "github.com/aperturerobotics/util/")
+				// strip generic instantiation and closures
+				if i := strings.Index(short, "["); i >= 0 {
+					if j := strings.Index(short, "]"); j > i {
+						short = short[:i] + short[j+1:]
+					}
+				}
+				if i := strings.Index(short, ".func"); i >= 0 {
+					short = short[:i]
+				}
+				name := short[strings.LastIndex(short, ".")+1:]
+				if name != "" && name[0] >= 'A' && name[0] <= 'Z' {
+					api = short // keep the outermost exported library function
+				}
+			}
+			if !more {
+				break
+			}
+		}
+		if api != "" {
+			if out[e.T] == nil {
+				out[e.T] = map[string]bool{}
+			}
+			out[e.T][api] = true
+		}
+	}
+	return out
+}
